@@ -222,16 +222,148 @@ def build(spec, route='direct', rng=None):
     direct     fresh Optic, keyword add_surface;
     handbuilt  some surfaces enter as ready-made Surface objects (add_surface(new_surface=...));
     reuse      an Optic that held a DIFFERENT lens (whose helpers were used), emptied with reset() and filled again;
-    roundtrip  built, to_dict() -> Optic.from_dict()."""
+    roundtrip  built, to_dict() -> Optic.from_dict();
+    edited     a DIFFERENT lens / configuration is built and queried, then brought to `spec` with the public setters
+               (not part of ROUTES: used by the edit-history class and the fixed corpus only)."""
     import random
     import lensgen
     from optiland.optic import Optic
     rng = rng or random.Random(12345)
+    if route == 'edited':
+        return build_edited(spec, rng, kinds=spec.get('edit_kinds'))
     if route == 'roundtrip':
         return Optic.from_dict(_extras(lensgen.build(spec), spec).to_dict())
     if route in ('reuse', 'handbuilt'):
         return _extras(lensgen.build_via(spec, route, rng), spec)
     return _extras(lensgen.build(spec), spec)
+
+
+
+# ---------------------------------------------------------------------------------------------
+# edit histories: the prescription is reached by public setter calls on a lens that was created different
+# ---------------------------------------------------------------------------------------------
+EDIT_KINDS = ['object_index', 'object_distance', 'thickness', 'radius', 'index', 'aperture', 'field_type', 'telecentric']
+
+
+def edited_start(spec, rng, kinds=None):
+    """(start prescription, [edit]) such that applying the edits (public setters of Optic) to the start prescription
+    gives `spec`.  kinds: edit kinds that MUST be present when applicable (None: a random non-empty subset).
+    edit = ('index'|'thickness'|'radius', surface number, final value) | ('aperture', type, value) |
+    ('field_type', name) | ('telecentric', flag)"""
+    import copy
+    st = copy.deepcopy(spec)
+    for k in ('route', 'edits', 'edit_kinds'):
+        st.pop(k, None)
+    want = set(kinds) if kinds else {k for k in EDIT_KINDS if rng.random() < 0.45}
+    if not want:
+        want = {rng.choice(EDIT_KINDS)}
+    edits = []
+    ns = len(spec['surfaces'])
+    if 'object_index' in want:
+        om = spec.get('object_material')
+        if om is None or (om[0] == 'ideal' and om[2] == 0.0):
+            nfin = float(om[1]) if om else 1.0
+            if om and rng.random() < 0.6:
+                st.pop('object_material', None)          # created in air, immersed afterwards
+                st.pop('object_index', None)
+            else:
+                nst = rng.uniform(1.2, 1.7)
+                st['object_material'] = ['ideal', nst, 0.0]
+                st['object_index'] = nst
+            edits.append(('index', 0, nfin))
+    if 'object_distance' in want:
+        d = float(spec['object_thickness'])
+        if math.isinf(d):
+            st['object_thickness'] = rng.uniform(40.0, 400.0)
+        else:
+            st['object_thickness'] = INF if rng.random() < 0.3 else d * rng.choice([rng.uniform(0.3, 0.8), rng.uniform(1.3, 3.0)])
+        edits.append(('thickness', 0, d))
+    if 'thickness' in want:
+        si = rng.randrange(1, ns + 1)
+        st['surfaces'][si - 1]['thickness'] = spec['surfaces'][si - 1]['thickness'] * rng.choice([rng.uniform(0.5, 0.8), rng.uniform(1.25, 1.8)])
+        edits.append(('thickness', si, float(spec['surfaces'][si - 1]['thickness'])))
+    if 'radius' in want:
+        cand = [i for i in range(1, ns + 1) if math.isfinite(float(spec['surfaces'][i - 1].get('radius', INF)))]
+        if cand:
+            si = rng.choice(cand)
+            st['surfaces'][si - 1]['radius'] = spec['surfaces'][si - 1]['radius'] * rng.choice([rng.uniform(0.6, 0.85), rng.uniform(1.2, 1.6)])
+            edits.append(('radius', si, float(spec['surfaces'][si - 1]['radius'])))
+    if 'index' in want:
+        def ideal(i):
+            m = spec['surfaces'][i - 1].get('material', 'air')
+            return isinstance(m, list) and m[0] == 'ideal' and m[2] == 0.0
+        cand = [i for i in range(1, ns + 1) if ideal(i) and (i == ns or spec['surfaces'][i].get('material', 'air') != 'mirror')]
+        if cand:
+            si = rng.choice(cand)
+            st['surfaces'][si - 1]['material'] = ['ideal', rng.uniform(1.35, 1.95), 0.0]
+            edits.append(('index', si, float(spec['surfaces'][si - 1]['material'][1])))
+    if 'aperture' in want:
+        ap = rng.choice(AP_TYPES)
+        st['aperture'] = [ap, rng.uniform(0.02, 0.3) if ap == 'objectNA' else rng.uniform(2.0, 12.0)]
+        edits.append(('aperture', spec['aperture'][0], float(spec['aperture'][1])))
+    if 'field_type' in want:
+        st['field_type'] = 'angle' if spec['field_type'] == 'object_height' else 'object_height'
+        edits.append(('field_type', spec['field_type']))
+    if 'telecentric' in want:
+        st['telecentric'] = not bool(spec.get('telecentric'))
+        edits.append(('telecentric', bool(spec.get('telecentric'))))
+    rng.shuffle(edits)
+    return st, edits
+
+
+def apply_history(o, edits):
+    for e in edits:
+        if e[0] in ('index', 'thickness', 'radius'):
+            getattr(o, 'set_' + e[0])(e[2], e[1])
+        elif e[0] == 'aperture':
+            o.set_aperture(e[1], e[2])
+        elif e[0] == 'field_type':
+            o.set_field_type(e[1])
+        elif e[0] == 'telecentric':
+            o.obj_space_telecentric = e[1]
+
+
+def build_edited(spec, rng, kinds=None):
+    """query, edit, query: the start lens is built, its paraxial helpers and generator are USED, then the public setters
+    bring it to `spec`.  The history is recorded in spec['edits'] (for the witness)."""
+    import numpy as np
+    import lensgen
+    st, edits = edited_start(spec, rng, kinds)
+    o = lensgen.build(st)
+    w = spec['wavelengths'][0][0]
+    for q in (lambda: o.paraxial.EPL(), lambda: o.paraxial.EPD(), lambda: o.paraxial.f2(),
+              lambda: o.ray_generator.generate_rays(np.array([0.0]), np.array([1.0]), np.array([0.0]), np.array([1.0]), w),
+              lambda: o.trace_generic(np.array([0.0]), np.array([0.5]), np.array([0.3]), np.array([-0.4]), w)):
+        try:
+            q()
+        except Exception:      # noqa  (the start configuration may be one that must be rejected)
+            pass
+    apply_history(o, edits)
+    spec['edits'] = [list(e) for e in edits]
+    spec['edit_start'] = {k: st.get(k) for k in ('object_thickness', 'object_material', 'aperture', 'field_type', 'telecentric')}
+    return _extras(o, spec)
+
+
+def far_object(spec, rng, distance=None, scale_heights=None):
+    """finite object distances over the whole finite range: log-uniform 1e0 .. 1e14 lens units (with the exact decades
+    1e10, 1e12 now and then); object heights either as generated (a few units) or scaled with the distance (a degree-sized
+    field).  In place; returns spec."""
+    d = distance if distance is not None else rng.choice([10.0 ** rng.uniform(0, 14), 10.0 ** rng.uniform(9, 14), 10.0 ** rng.uniform(9.5, 11),
+                                                           1e10, 1e12, 3.844e11])
+    spec['object_thickness'] = float(d)
+    sc = scale_heights if scale_heights is not None else (spec['field_type'] == 'object_height' and rng.random() < 0.5)
+    if sc and spec['field_type'] == 'object_height':
+        k = d / 100.0
+        for f in spec['fields']:
+            f[0] *= k
+            f[1] *= k
+        spec.pop('object_radius', None)
+    if spec['aperture'][0] == 'objectNA' and not spec.get('telecentric') and d > 1e3:
+        spec['aperture'] = ['objectNA', rng.uniform(3.0, 9.0) / (2 * d)]       # a pupil of lens size, not of object-distance size
+    if spec.get('object_radius') and abs(spec['object_radius']) < 1e3 and d > 1e6:
+        spec.pop('object_radius', None)
+    spec['strict_oracle'] = True
+    return spec
 
 
 def spec_fields(spec):
@@ -380,6 +512,14 @@ def check_origins(o, spec, args, res):
     return bad
 
 
+def entered_object_index(spec):
+    """index of the object space as ENTERED: object_material ['ideal', n, k] (or object_index), air otherwise"""
+    om = spec.get('object_material')
+    if om and om[0] == 'ideal':
+        return float(om[1])
+    return float(spec.get('object_index') or 1.0)
+
+
 def entered_vig(spec, Hx, Hy):
     """vignetting factors of the field (Hx, Hy) from the ENTERED field list (numpy interp over the y-sorted fields,
     normalised by the largest y field, as documented); None when the list has x fields"""
@@ -421,6 +561,9 @@ def check_launch(o, spec, ray, res, tol=1e-8):
         return bad
     x, y, z, L, M, N, inten, ww, opd = res[1]
     ps = paraxcorr.psurfs(o)
+    # object distance and object-space index as ENTERED (the lens surfaces are guarded by entered_problems)
+    ps[0] = dict(ps[0], z=-float(spec['object_thickness']), npost=entered_object_index(spec))
+    strict = bool(spec.get('strict_oracle'))
     mf = max(math.hypot(f.x, f.y) for f in entered_fields(spec))
     q = oracles.abcd_quantities(ps, ap, spec['aperture'][1], ft, mf)
     finite = all(math.isfinite(v) for v in (x, y, z, L, M, N))
@@ -447,8 +590,11 @@ def check_launch(o, spec, ray, res, tol=1e-8):
     v0 = interp_oracle(h, hs, [eflds[i].vx for i in order])
     v1 = interp_oracle(h, hs, [eflds[i].vy for i in order])
     scale = 1 + abs(x) + abs(y) + abs(z)
+    if strict:
+        # lateral clauses are not relaxed by a large object distance
+        scale = 1 + abs(Hx * mf) + abs(Hy * mf)
     if tele:
-        n0 = float(spec.get('object_index') or 1.0)
+        n0 = entered_object_index(spec)
         sin_t = spec['aperture'][1] / n0          # NA = n sin(theta)
         # origin on the object at the field height
         if abs(x - Hx * mf) > tol * scale or abs(y - Hy * mf) > tol * scale:
@@ -476,7 +622,11 @@ def check_launch(o, spec, ray, res, tol=1e-8):
     ax, ay = x + t * L, y + t * M
     ex, ey = Px * (1 - v0) * EPD / 2, Py * (1 - v1) * EPD / 2
     s2 = 1 + abs(ex) + abs(ey) + abs(EPD)
-    if abs(ax - ex) > 1e-7 * s2 * (1 + abs(t) * 1e-3) or abs(ay - ey) > 1e-7 * s2 * (1 + abs(t) * 1e-3):
+    atol = 1e-7 * s2 * (1 + abs(t) * 1e-3)
+    if strict:
+        # the aim error of a correctly rounded direction is relative to the lateral extent, not to the path length
+        atol = 1e-7 * (s2 + abs(x) + abs(y))
+    if abs(ax - ex) > atol or abs(ay - ey) > atol:
         bad.append({'kind': 'aim-point', 'hits_pupil_plane_at': [ax, ay], 'expected': [ex, ey], 'EPL': EPL, 'EPD': EPD})
     if t < 0:
         bad.append({'kind': 'launched-backwards', 'N': N, 'launch_z': z, 'EPL': EPL,
@@ -492,17 +642,18 @@ def check_launch(o, spec, ray, res, tol=1e-8):
             bad.append({'kind': 'field-angle-x', 'tan_x': L / N, 'expected_abs': math.tan(math.radians(Hx * mf))})
     else:
         objz = -float(spec['object_thickness'])
+        zscale = scale + abs(objz) if strict else scale
         if ft == 'object_height':
             if abs(x - Hx * mf) > tol * scale or abs(y - Hy * mf) > tol * scale:
                 bad.append({'kind': 'object-height', 'origin': [x, y], 'expected': [Hx * mf, Hy * mf]})
             R = spec.get('object_radius')
             r2 = x * x + y * y
             sag = 0.0 if not R else r2 / (R * (1 + math.sqrt(1 - r2 / R ** 2)))
-            if abs(z - (objz + sag)) > tol * scale:
+            if abs(z - (objz + sag)) > tol * zscale:
                 bad.append({'kind': 'origin-not-on-object', 'z': z, 'expected': objz + sag})
         else:
             # angle fields, finite object: the chief ray makes the field angle with the axis and starts on the object plane
-            if abs(z - objz) > tol * scale:
+            if abs(z - objz) > tol * zscale:
                 bad.append({'kind': 'origin-not-on-object', 'z': z, 'expected': objz})
             th = math.radians(Hy * mf)
             yexp = -math.tan(th) * (EPL - objz)
